@@ -856,7 +856,69 @@ def find(mods: dict[str, ast.Module], key: str) -> ast.FunctionDef:
             raise Unsupported(f"{key}: {name} not found")
     if not isinstance(node, ast.FunctionDef):
         raise Unsupported(f"{key}: not a function")
-    return node
+    return inline_bool_temps(node)
+
+
+def _is_boolish(e: ast.expr) -> bool:
+    if isinstance(e, (ast.Compare, ast.BoolOp)):
+        return True
+    if isinstance(e, ast.UnaryOp) and isinstance(e.op, ast.Not):
+        return True
+    return isinstance(e, ast.Call) and ast.unparse(e.func) in ("math.isnan", "isinstance")
+
+
+def inline_bool_temps(fn: ast.FunctionDef) -> ast.FunctionDef:
+    """Meaning-preserving normalisation of the translator's INPUT: a local that is assigned exactly once, to a boolean
+    expression (a comparison, and/or/not, math.isnan(..)), whose operands are not assigned again afterwards, and that is
+    only read, is replaced by that expression wherever it is read; the assignment is dropped.  (`flag = a is None` ...
+    `x if flag else y` is then the `x if a is None else y` the translator knows.)"""
+    import copy
+    assigns: dict[str, list[ast.stmt]] = {}
+    for n in ast.walk(fn):
+        tg = []
+        if isinstance(n, ast.Assign):
+            tg = n.targets
+        elif isinstance(n, (ast.AnnAssign, ast.AugAssign)):
+            tg = [n.target]
+        elif isinstance(n, (ast.For, ast.comprehension)):
+            tg = [n.target]
+        for t in tg:
+            for x in ast.walk(t):
+                if isinstance(x, ast.Name):
+                    assigns.setdefault(x.id, []).append(n)
+    params = {a.arg for a in fn.args.args + fn.args.kwonlyargs}
+    cand: dict[str, ast.expr] = {}
+    for name, sts in assigns.items():
+        if len(sts) != 1 or name in params:
+            continue
+        st = sts[0]
+        if not (isinstance(st, ast.Assign) and len(st.targets) == 1 and isinstance(st.targets[0], ast.Name)
+                and _is_boolish(st.value)):
+            continue
+        ok = True
+        for x in ast.walk(st.value):
+            if isinstance(x, ast.Name) and x.id != name:
+                for a in assigns.get(x.id, []):
+                    if getattr(a, "lineno", 0) > st.lineno:      # an operand is reassigned later: not safe
+                        ok = False
+        if ok:
+            cand[name] = st.value
+    if not cand:
+        return fn
+
+    class Sub(ast.NodeTransformer):
+        def visit_Name(self, node):  # noqa: N802
+            if isinstance(node.ctx, ast.Load) and node.id in cand:
+                return self.visit(copy.deepcopy(cand[node.id]))
+            return node
+
+        def visit_Assign(self, node):  # noqa: N802
+            if len(node.targets) == 1 and isinstance(node.targets[0], ast.Name) and node.targets[0].id in cand:
+                return None
+            return self.generic_visit(node)
+    new = Sub().visit(copy.deepcopy(fn))
+    ast.fix_missing_locations(new)
+    return new
 
 
 def mean_ctor_map(mods: dict[str, ast.Module]) -> str:
@@ -918,6 +980,14 @@ def benjamini_m_adj(mods: dict[str, ast.Module]) -> str:
     if len(tgt) != 1 or not alpha_ok:
         raise Unsupported("_Benjamini.__init__ shape")
     v = tgt[0].value
+    # the bound variable of the harmonic sum may have any name
+    for g in [n for n in ast.walk(v) if isinstance(n, (ast.GeneratorExp, ast.ListComp))]:
+        if len(g.generators) == 1 and isinstance(g.generators[0].target, ast.Name):
+            old_name = g.generators[0].target.id
+            if old_name not in ("m", "arbitrary_dependence"):
+                for x in ast.walk(g):
+                    if isinstance(x, ast.Name) and x.id == old_name:
+                        x.id = "i"
     want = "m * sum((1 / i for i in range(1, m + 1))) if arbitrary_dependence else m"
     if ast.unparse(v) != want:
         raise Unsupported(f"_Benjamini.__init__: m_adj_ = {ast.unparse(v)}")
@@ -1559,6 +1629,11 @@ def generate_solve(src: Path) -> str:
         raise Unsupported(f"_solve_power_from_stats: branches {sorted(branches)}")
     # final statement: brentq(fn, lower_bound, upper_bound, maxiter=MAX_ITER)
     last = fn.body[-1]
+    if isinstance(last, ast.Return) and isinstance(last.value, ast.Name) and len(fn.body) >= 2:
+        prev = fn.body[-2]          # `root = brentq(...); return root`  ==  `return brentq(...)`
+        if isinstance(prev, ast.Assign) and len(prev.targets) == 1 and isinstance(prev.targets[0], ast.Name) \
+                and prev.targets[0].id == last.value.id:
+            last = ast.Return(value=prev.value)
     if not (isinstance(last, ast.Return) and isinstance(last.value, ast.Call)
             and ast.unparse(last.value.func) == "scipy.optimize.brentq"
             and [ast.unparse(a) for a in last.value.args] == ["fn", "lower_bound", "upper_bound"]
